@@ -21,8 +21,13 @@ type c16Prog struct {
 	N     int      `json:"n"` // bound = N mod (total+4)
 	// second stage (when Second): the windowed log merges again, with another bound, from replica C
 	Second bool `json:"second,omitempty"`
-	C      int  `json:"c,omitempty"`
-	N2     int  `json:"n2,omitempty"`
+	// third stage (when Third): replica C, holding its whole history, makes a bounded merge FROM the windowed log
+	Third bool `json:"third,omitempty"`
+	// Behind > 0: in the third stage the receiving replica is one that stopped earlier - it holds the oldest
+	// 1 + (Behind-1) mod (total-1) entries of the merged history - instead of replica C
+	Behind int `json:"behind,omitempty"`
+	C      int `json:"c,omitempty"`
+	N2     int `json:"n2,omitempty"`
 }
 
 func genC16(t *rapid.T) c16Prog {
@@ -48,6 +53,8 @@ func genC16(t *rapid.T) c16Prog {
 		B:      rapid.IntRange(0, w.Replicas-1).Draw(t, "src"),
 		N:      rapid.IntRange(0, 1<<16).Draw(t, "n"),
 		Second: rapid.IntRange(0, 2).Draw(t, "second") == 0,
+		Third:  rapid.IntRange(0, 2).Draw(t, "third") == 1,
+		Behind: rapid.SampledFrom([]int{0, 1, 2, 3, 4, 6, 9, 14}).Draw(t, "behind"),
 		C:      rapid.IntRange(0, w.Replicas-1).Draw(t, "src2"),
 		N2:     rapid.IntRange(0, 1<<16).Draw(t, "n2"),
 	}
@@ -155,7 +162,7 @@ func runC16(tb ev.TB, p c16Prog) ev.Result {
 			tb.Fatalf("bound %d >= merged size %d must behave like the unbounded merge: %s", bound, total, d)
 		}
 	}
-	secondStage := false
+	secondStage, thirdStage := false, false
 	if p.Second && n >= 2 {
 		c := p.C % n
 		if c == a {
@@ -205,6 +212,84 @@ func runC16(tb ev.TB, p c16Prog) ev.Result {
 		}
 		secondStage = bound < total
 	}
+	// third stage: ANOTHER replica (whole history, possibly behind) makes a bounded merge FROM the windowed log; the
+	// merged history may then have gaps (the window's oldest entries name predecessors nobody holds, skip
+	// references jump over them)
+	if p.Third && n >= 2 {
+		c := p.C % n
+		if c == a {
+			c = (a + 1) % n
+		}
+		rep := w.Reps[c]
+		everything := union.Clone()
+		everything.Union(rep.Model)
+		if !w.Reg.StrictTotalOn(w.Order, everything) || w.Order == world.OrderFWW {
+			goto classify
+		}
+		recvEntries, recvHeads := rep.Log.GetEntries().Slice(), rep.Log.Heads().Slice()
+		recvClock := entry.NewLamportClock(rep.Log.Clock.GetID(), rep.Log.Clock.GetTime())
+		if p.Behind > 0 && total >= 2 {
+			// a replica that stopped earlier: it holds the oldest k entries of the merged history (a prefix of a
+			// causal linearisation is causally closed) and nothing else
+			k := 1 + (p.Behind-1)%(total-1)
+			prefix := world.SetOf(full[:k])
+			recvEntries, recvHeads = nil, nil
+			hs := w.Reg.ModelHeads(prefix)
+			maxT := 0
+			for _, h := range full[:k] {
+				e, ok := twin.Get(w.Reg.Get(h).Cid)
+				if !ok {
+					tb.Fatalf("harness: entry %s missing from the unbounded twin", world.Short(h))
+				}
+				recvEntries = append(recvEntries, e)
+				if hs.Has(h) {
+					recvHeads = append(recvHeads, e)
+				}
+				if t := e.GetClock().GetTime(); t > maxT {
+					maxT = t
+				}
+			}
+			recvClock = entry.NewLamportClock(rep.Log.Clock.GetID(), maxT)
+		}
+		mk := func() *ipfslog.IPFSLog {
+			l, err := world.NewLog(w.Store.API(), rep.Writer, sim.LogID, w.Order, w.IO, &ipfslog.LogOptions{Entries: entry.NewOrderedMapFromEntries(recvEntries), Heads: recvHeads, Clock: recvClock})
+			if err != nil {
+				tb.Fatalf("harness: twin: %v", err)
+			}
+			return l
+		}
+		recv, recvTwin := mk(), mk()
+		if _, err := recvTwin.Join(dst.Log, -1); err != nil {
+			tb.Fatalf("unbounded merge from a windowed log failed: %v", err)
+		}
+		full3 := world.Hashes(recvTwin.Values())
+		total3 := len(full3)
+		cands3 := []int{0, 1, total3 - 1, total3, total3 + 1, p.N2 % (total3 + 4), (p.N2 / 7) % (total3 + 4), (p.N2 / 3) % (total3 + 4)}
+		bound3 := cands3[(p.N2/5)%len(cands3)]
+		if bound3 < 0 {
+			bound3 = 0
+		}
+		if _, err := recv.Join(dst.Log, bound3); err != nil {
+			tb.Fatalf("bounded merge (n=%d) from a windowed log returned error: %v", bound3, err)
+		}
+		want3 := bound3
+		if total3 < want3 {
+			want3 = total3
+		}
+		vals3 := world.Hashes(recv.Values())
+		ents3 := entriesOf(recv)
+		if len(vals3) != want3 || len(ents3) != want3 || recv.Len() != want3 {
+			tb.Fatalf("bounded merge n=%d from a windowed log (the unbounded merge linearises %d entries): Values has %d, entries %d, Len %d; want %d", bound3, total3, len(vals3), len(ents3), recv.Len(), want3)
+		}
+		if exp := full3[total3-want3:]; !world.EqualStrings(vals3, exp) {
+			tb.Fatalf("bounded merge n=%d from a windowed log: values are not the last %d of what the unbounded merge linearises:\n got  %v\n want %v", bound3, want3, world.Shorts(vals3), world.Shorts(exp))
+		}
+		wantHeads3 := w.Reg.ModelHeads(ents3)
+		if hs := world.SetOf(world.Hashes(recv.Heads())); !hs.Equal(wantHeads3) {
+			tb.Fatalf("bounded merge n=%d from a windowed log: heads %v, unreferenced among kept entries %v", bound3, world.Shorts(hs.Sorted()), world.Shorts(wantHeads3.Sorted()))
+		}
+		thirdStage = bound < total
+	}
 classify:
 	fork := w.Reg.HasFork(union)
 	cutsFork := false
@@ -214,6 +299,9 @@ classify:
 	cl := worldClasses(w)
 	if secondStage {
 		cl = append(cl, "second-bounded-merge-into-a-windowed-log")
+	}
+	if thirdStage {
+		cl = append(cl, "bounded-merge-from-a-windowed-log")
 	}
 	switch {
 	case bound == 0:
@@ -230,6 +318,6 @@ classify:
 
 func TestC16(t *testing.T) {
 	c := ev.Get("C16")
-	c.Rule = "a generated multi-replica program (as C01, no final exchange) builds the logs; two of its replicas and a bound n in [0,total+3] (biased to 0,1,total-1,total,total+1; sometimes a 'no limit' sentinel: 1000*(total+1), 2^62, MaxInt) are drawn; A.Join(B,n) is compared with the last min(n,total) entries of the reference sort of A's set ∪ B's set (exact when the ordering is strict-total there, 'nothing excluded is strictly newer' otherwise), heads with the unreferenced entries among the kept ones, and for n >= total with a twin replica that did the unbounded merge. In a third of the cases the (now possibly windowed) log then makes a second bounded merge from another replica; it is compared with a twin that made the same first merge and the unbounded form of the second one. Non-trivial = merged set has a fork and (n > total or the truncation keeps a forked/multi-headed suffix); distinct = distinct program."
+	c.Rule = "a generated multi-replica program (as C01, no final exchange) builds the logs; two of its replicas and a bound n in [0,total+3] (biased to 0,1,total-1,total,total+1; sometimes a 'no limit' sentinel: 1000*(total+1), 2^62, MaxInt) are drawn; A.Join(B,n) is compared with the last min(n,total) entries of the reference sort of A's set ∪ B's set (exact when the ordering is strict-total there, 'nothing excluded is strictly newer' otherwise), heads with the unreferenced entries among the kept ones, and for n >= total with a twin replica that did the unbounded merge. In a third of the cases the (now possibly windowed) log then makes a second bounded merge from another replica; it is compared with a twin that made the same first merge and the unbounded form of the second one. In a third of the cases another replica - replica C with its whole history, or one that stopped earlier and holds the oldest k entries of the merged history - makes a bounded merge FROM the windowed log (the merged history can have gaps that skip references jump over); it is compared with a twin that made the unbounded merge from the same windowed log. Non-trivial = merged set has a fork and (n > total or the truncation keeps a forked/multi-headed suffix); distinct = distinct program."
 	ev.Check(t, "C16", genC16, runC16)
 }
